@@ -6,7 +6,7 @@ from . import core
 from .props import prop, job, Q, T
 
 CORPUS = os.path.join(core.VERIF, "corpus")
-PARTS = ["theta", "hll", "cpc", "kll", "quant", "misc"]
+PARTS = ["theta", "setops", "hll", "cpc", "cpcgrid", "kll", "quant", "misc"]
 
 
 def _gen(oc):
